@@ -68,10 +68,14 @@ package pathbadger
 // A batch whose nodes went to pending keys (seqNo != 0) must therefore have
 // stored that index. Chunk-mode batches never store it.
 
+//@ ghost var GPbMetaCommit int
+
 //@ func badgerBatch.Commit
-//@   props C06 C12
+//@   props C06 C12 C13
 //@   requires ba != nil
 //@   precall pathbadger\.metadata\)\.setPendingRootSeqNo$ :: argIs(2, ba.seqNo) && (ba.seqNo == 0 || !ba.chunk)
+//@   precall badger/v4\.WriteBatch\)\.Flush$ :: GPbMetaCommit > old(GPbMetaCommit)
+//@   note (C13, C06) the batches holding the new root are flushed only after the metadata that records the root's pending sequence number was written out (metadata.commit): a root that exists without a durable sequence-number record is resolved as sequence number 0 after a restart - GetWriteLog and GetNode then serve ANOTHER candidate's nodes for it (seed C13_h dropped the metadata commit)
 //@   note a batch that records a non-zero sequence number for its root (its nodes went to pending keys) has recorded the root's updated-nodes index (which only non-chunk batches do). FAILS for a chunk batch with a non-zero sequence number - reachable by aborting a multipart restore and starting it again (StartMultipartInsert reserves the NEXT sequence number of the version each time): known finding F8
 
 // ---- chunk import (C12): partial pointers of an already imported node are all merged ----
